@@ -1460,6 +1460,22 @@ func (x *Exec) evalBuiltinSpec(ce *CEnv, name string, args []Expr) (*Val, bool) 
 		nv := *v
 		nv.Typ = t
 		return &nv, true
+	case "typetag":
+		// typetag(v): the dynamic type tag of an interface value (an integer);
+		// tagof("pkg.Type"): the tag of the named type. dyntype(v, "T") is
+		// typetag(v) == tagof("T").
+		v := x.eval(ce, args[0])
+		return &Val{Typ: intT, T: x.b.App("i_tag", "Int", x.asTerm(v))}, true
+	case "tagof":
+		s, ok := args[0].(*EString)
+		if !ok {
+			cfail("tagof needs a string literal type")
+		}
+		t := x.prog.resolveType(x.pkgOf(ce), s.V)
+		if t == nil {
+			cfail("cannot resolve type %s", s.V)
+		}
+		return &Val{Typ: intT, T: x.b.Int(int64(x.so.TypeTag(t)))}, true
 	case "dyntype":
 		// dyntype(v, "pkg.Type"): v's dynamic type tag equals that of the named type
 		v := x.eval(ce, args[0])
